@@ -767,21 +767,7 @@ func inlineHelpers(p *packages.Package, fd *ast.FuncDecl, want func(g *ast.FuncD
 		if g.Type.Results == nil || g.Type.Results.NumFields() != 1 || g.Type.Params.NumFields() != len(call.Args) {
 			return nil, nil
 		}
-		last, ok := g.Body.List[len(g.Body.List)-1].(*ast.ReturnStmt)
-		if !ok || len(last.Results) != 1 {
-			return nil, nil
-		}
-		nRet := 0
-		ast.Inspect(g.Body, func(n ast.Node) bool {
-			switch n.(type) {
-			case *ast.ReturnStmt:
-				nRet++
-			case *ast.FuncLit:
-				return false
-			}
-			return true
-		})
-		if nRet != 1 {
+		if !trailingReturnOnly(g) && loopReturnForm(g) == nil {
 			return nil, nil
 		}
 		for _, f := range g.Type.Params.List {
@@ -815,8 +801,60 @@ func inlineHelpers(p *packages.Package, fd *ast.FuncDecl, want func(g *ast.FuncD
 				i++
 			}
 		}
+		if trailingReturnOnly(g) {
+			pre = append(pre, g.Body.List[:len(g.Body.List)-1]...)
+			return pre, g.Body.List[len(g.Body.List)-1].(*ast.ReturnStmt).Results[0], true
+		}
+		// the helper ends in `for ..; ; .. { .. return X .. }`: the loop is kept, every return becomes
+		// `result = X; break`, and the caller reads the result variable
+		loop := loopReturnForm(g)
+		fnObj, _ := info.Defs[g.Name].(*types.Func)
+		if loop == nil || fnObj == nil {
+			return nil, nil, false
+		}
+		resT := fnObj.Type().(*types.Signature).Results().At(0).Type()
+		res := types.NewVar(call.Pos(), p.Types, "result·"+g.Name.Name, resT)
+		use := func() *ast.Ident {
+			id := &ast.Ident{NamePos: call.Pos(), Name: res.Name()}
+			info.Uses[id] = res
+			return id
+		}
+		var rewrite func(list []ast.Stmt) []ast.Stmt
+		rewrite = func(list []ast.Stmt) []ast.Stmt {
+			var out []ast.Stmt
+			for _, st := range list {
+				switch y := st.(type) {
+				case *ast.ReturnStmt:
+					out = append(out, &ast.AssignStmt{Lhs: []ast.Expr{use()}, TokPos: y.Pos(), Tok: token.ASSIGN, Rhs: []ast.Expr{y.Results[0]}},
+						&ast.BranchStmt{TokPos: y.Pos(), Tok: token.BREAK})
+				case *ast.BlockStmt:
+					cp := *y
+					cp.List = rewrite(y.List)
+					out = append(out, &cp)
+				case *ast.IfStmt:
+					cp := *y
+					b := *y.Body
+					b.List = rewrite(y.Body.List)
+					cp.Body = &b
+					if eb, ok := y.Else.(*ast.BlockStmt); ok {
+						e := *eb
+						e.List = rewrite(eb.List)
+						cp.Else = &e
+					}
+					out = append(out, &cp)
+				default:
+					out = append(out, st)
+				}
+			}
+			return out
+		}
+		lc := *loop
+		lb := *loop.Body
+		lb.List = rewrite(loop.Body.List)
+		lc.Body = &lb
 		pre = append(pre, g.Body.List[:len(g.Body.List)-1]...)
-		return pre, g.Body.List[len(g.Body.List)-1].(*ast.ReturnStmt).Results[0], true
+		pre = append(pre, &lc)
+		return pre, use(), true
 	}
 	changed := false
 	var out []ast.Stmt
@@ -913,4 +951,72 @@ func inspectWithHelpers(p *packages.Package, fd *ast.FuncDecl, fc *fcanon, depth
 		stack = stack[:len(stack)-1]
 	}
 	rec(fd, fc, 0)
+}
+
+// trailingReturnOnly: g's only return statement is its last statement, with one result.
+func trailingReturnOnly(g *ast.FuncDecl) bool {
+	last, ok := g.Body.List[len(g.Body.List)-1].(*ast.ReturnStmt)
+	if !ok || len(last.Results) != 1 {
+		return false
+	}
+	n := 0
+	ast.Inspect(g.Body, func(x ast.Node) bool {
+		switch x.(type) {
+		case *ast.ReturnStmt:
+			n++
+		case *ast.FuncLit:
+			return false
+		}
+		return true
+	})
+	return n == 1
+}
+
+// loopReturnForm: g's last statement is a condition-less for loop and every return of g (one result each) sits
+// in that loop's body, nested in nothing but blocks and if statements. Returns the loop, or nil.
+func loopReturnForm(g *ast.FuncDecl) *ast.ForStmt {
+	loop, ok := g.Body.List[len(g.Body.List)-1].(*ast.ForStmt)
+	if !ok || loop.Cond != nil {
+		return nil
+	}
+	total := 0
+	ast.Inspect(g.Body, func(x ast.Node) bool {
+		switch x.(type) {
+		case *ast.ReturnStmt:
+			total++
+		case *ast.FuncLit:
+			return false
+		}
+		return true
+	})
+	reach := 0
+	okShape := true
+	var walk func(list []ast.Stmt)
+	walk = func(list []ast.Stmt) {
+		for _, st := range list {
+			switch y := st.(type) {
+			case *ast.ReturnStmt:
+				if len(y.Results) != 1 {
+					okShape = false
+				}
+				reach++
+			case *ast.BlockStmt:
+				walk(y.List)
+			case *ast.IfStmt:
+				walk(y.Body.List)
+				switch e := y.Else.(type) {
+				case *ast.BlockStmt:
+					walk(e.List)
+				case nil:
+				default:
+					okShape = false
+				}
+			}
+		}
+	}
+	walk(loop.Body.List)
+	if !okShape || reach == 0 || reach != total {
+		return nil
+	}
+	return loop
 }
